@@ -33,8 +33,14 @@ class EditableModule(object):
             try:
                 set_attr(self, name, val)
             except TypeError as e:  # failed because val should be param
-                del_attr(self, name)
-                set_attr(self, name, val)
+                # keep the slot of the registered torch.nn.Parameter so that the
+                # registration order is unchanged once the parameter is put back
+                owner, key = _get_param_owner(self, name)
+                if owner is not None:
+                    owner._parameters[key] = val
+                else:
+                    del_attr(self, name)
+                    set_attr(self, name, val)
 
         return len(params)
 
@@ -360,6 +366,16 @@ class EditableModule(object):
             params.append(all_tensors[i])
 
         return names, params
+
+def _get_param_owner(obj, name):
+    # returns the torch.nn.Module and the key under which the parameter with
+    # the address `name` (e.g. "model.linear.weight") is registered
+    idx = name.rfind(".")
+    owner = get_attr(obj, name[:idx]) if idx >= 0 else obj
+    key = name[idx + 1:]
+    if isinstance(owner, torch.nn.Module) and key in owner._parameters:
+        return owner, key
+    return None, None
 
 ############################ traversing functions ############################
 def _traverse_obj(obj, prefix, action, crit, max_depth=20, exception_ids=None):
